@@ -7,6 +7,8 @@ from vlib import report, scripth, world, symx
 
 def script_worker(args):
     """args: dict(case=Case, timeout_ms, max_paths, budget_s).  -> WorkResult"""
+    import sys
+    sys.setrecursionlimit(20000)
     case = args['case']
     res = report.WorkResult(case.tag)
     world.start_function_trace()
